@@ -8,6 +8,7 @@ import (
 
 	tally "github.com/uber-go/tally/v4"
 	"github.com/uber-go/tally/v4/m3"
+	rt "github.com/uber-go/tally/v4/verifrt"
 )
 
 type c12Shape struct {
@@ -531,4 +532,46 @@ func c12LemmaJob(tier string) *SeqJob {
 		return guard(func() (string, string) { c, d, _ := run(ops[0], nc, ops[2], nl, nt, tl); return c, d })
 	}
 	return j
+}
+
+// c12Scenarios: the size the reporter charges for a metric must not depend on what other
+// goroutines allocate at the same time (the size calculator is shared).
+func c12Scenarios(tier string) []*Scenario {
+	sc := &Scenario{Property: "C12", Name: "K-concurrent-allocation-sizes", Ticks: 0, AllowLeak: true, BoundSet: true, Bound: tierInt(tier, 1, 2), FreeBound: tierInt(tier, 2, 3), Shards: 4}
+	sc.Body = func(x *Run) {
+		s := newFastSink()
+		x.Cleanup = append(x.Cleanup, s.close)
+		r, err := m3.NewReporter(m3.Options{HostPorts: []string{s.addr}, Service: "svc", Env: "test", MaxQueueSize: 8})
+		if err != nil {
+			x.failf("new-reporter", "%v", err)
+			return
+		}
+		names := []string{strings.Repeat("a", 40), strings.Repeat("b", 300)}
+		tags := []map[string]string{{"k": "v"}, c12Tags(6)}
+		got := make([]int32, 2)
+		var bsizes []int32
+		t1 := rt.GoNamed("alloc1", func() { got[0] = m3.VerifChargedSize(r.AllocateCounter(names[0], tags[0])) })
+		t2 := rt.GoNamed("alloc2", func() {
+			got[1] = m3.VerifChargedSize(r.AllocateGauge(names[1], tags[1]))
+			bsizes = m3.VerifBucketChargedSizes(r.AllocateHistogram("h", tags[0], tally.ValueBuckets{1}))
+		})
+		t1.Join()
+		t2.Join()
+		// reference: the same allocations made one after the other
+		want := []int32{m3.VerifChargedSize(r.AllocateCounter(names[0], tags[0])), m3.VerifChargedSize(r.AllocateGauge(names[1], tags[1]))}
+		wb := m3.VerifBucketChargedSizes(r.AllocateHistogram("h", tags[0], tally.ValueBuckets{1}))
+		for i := range want {
+			if got[i] != want[i] {
+				x.failf("charged-size-depends-on-concurrent-allocation", "metric %d: charged %d bytes when allocated concurrently, %d when allocated alone", i, got[i], want[i])
+			}
+		}
+		for i := range wb {
+			if i < len(bsizes) && bsizes[i] != wb[i] {
+				x.failf("charged-size-depends-on-concurrent-allocation", "histogram bucket %d: charged %d bytes when allocated concurrently, %d when allocated alone", i, bsizes[i], wb[i])
+			}
+		}
+		_ = r.Close()
+	}
+	sc.Check = func(x *Run, o *rt.Outcome) (string, string, string) { return "", "", "ok" }
+	return []*Scenario{sc}
 }
